@@ -6,6 +6,9 @@
 #include "ref_mqtt.hpp"
 #include <boost/mqtt5/mqtt_client.hpp>
 #include <boost/asio/ip/tcp.hpp>
+#ifdef VK_LAYERED
+#include "vk_layered.hpp"
+#endif
 #include <boost/asio/bind_cancellation_slot.hpp>
 #include <boost/asio/cancellation_signal.hpp>
 template class std::basic_string<char>;
@@ -16,7 +19,12 @@ extern "C" { __attribute__((used)) inline int64_t vk_time_fixed = 1700000000; }
 namespace wc {
 namespace asio = boost::asio;
 using namespace boost::mqtt5;
-using client_t = mqtt_client<asio::ip::tcp::socket>;
+#ifdef VK_LAYERED
+using stream_t = vk::layered_stream;       // takes the code paths of TLS / WebSocket streams (shutdown_op with the connection lock)
+#else
+using stream_t = asio::ip::tcp::socket;
+#endif
+using client_t = mqtt_client<stream_t>;
 using vk::error_code;
 
 enum { MAXPK = 24, MAXOPS = 6, RXCAP = 512, OUTCAP = 256, MAXMSG = 8 };
@@ -173,6 +181,14 @@ struct W {
     return t && t->armed && !vk::pending_read();
   }
 
+  // layered stream only: the async_shutdown of the stream that was swapped out completes (the peer closed its side)
+#ifdef VK_LAYERED
+  bool shutdown_pending() const { return vk::pending_shutdown() != nullptr; }
+  bool finish_shutdown(error_code ec = {}) { if (auto* r = vk::pending_shutdown()) { vk::complete_shutdown(r, ec); vk::drain(); return true; } return false; }
+#else
+  bool shutdown_pending() const { return false; }
+  bool finish_shutdown(error_code = {}) { return false; }
+#endif
   // ------------------------------------------------------------ user operations
   int new_op(int kind) { vk_assert(nops < MAXOPS, "harness: op capacity"); op_rec& o = ops[nops]; o = op_rec{}; o.kind = kind; o.ec = -1; o.rc = -1; return nops++; }
   void done(int i, error_code ec, int rc) { op_rec& o = ops[i]; o.done++; o.ec = ec.value(); o.rc = rc; o.inline_completion = in_api; o.t_done = vk_now_ms; }
